@@ -1037,6 +1037,24 @@ fn c03(r: &mut Rng, fonts: &[FontInfo], n: u64, tr: &mut Option<std::fs::File>) 
         trace(tr, &format!("{} {} [{}]", i, fi.path, fmt_req(&req)));
         check_c03(fi, &req, &mut cnt);
     }
+    // dedicated pass (own random stream, behind the fixed-seed sweep): joining-script letters with
+    // PRODUCE_SAFE_TO_INSERT_TATWEEL requested - the joining shaper then records "tatweel may go here" instead of flagging
+    // the joined pair, and the final flag pass has to turn that into UNSAFE_TO_BREAK
+    let mut r2 = Rng::new(0x7A7);
+    for fi in fonts.iter() {
+        let letters: Vec<u32> = fi.chars.iter().cloned().filter(|c| (0x0621..=0x064A).contains(c) && *c != 0x0640 || (0x0712..=0x072C).contains(c) || (0x1820..=0x1842).contains(c)).collect();
+        if letters.len() < 4 {
+            continue;
+        }
+        for j in 0..6u32 {
+            let n = 2 + r2.below(4) as usize;
+            let text: Vec<(u32, u32)> = (0..n).map(|i| (*r2.pick(&letters), i as u32)).collect();
+            let req = Req { text, flags: 3 | flag_tatweel(), level: (j % 2) as u8, ..Default::default() };
+            trace(tr, &format!("tatweel {} [{}]", fi.path, fmt_req(&req)));
+            check_c03(fi, &req, &mut cnt);
+            cnt.bump("tatweel_flag_cases");
+        }
+    }
     cnt.summary("C03");
 }
 
